@@ -22,23 +22,27 @@ MANIFEST = {
              'C14_sided_axis1_any_layout, C14_sided1d -- leading/trailing fills (isna_exit_previous across blocks, reversed walk) equal S_leading / S_trailing; '
              'C14_ffill_exact, C14_bfill_exact, C14_decomposition, C14_leading_exact -- S copies exactly the nearest preceding (following) present value into exactly '
              'min(run, limit) cells; C14_fill_never_changes_present; C14_fillna_exact; C14_isna_exact (over the kind constants REGENERATED from util.py); '
-             'C14_count_spec; C14_dropna_exact. Correspondence on every run: kernel level (util.binary_transition 1-D and per line of 2-D, util.slices_from_targets '
+             'C14_count_spec; C14_dropna_exact; C14_fillna_series_refines -- for any label type with unique labels the label-restricted Series.fillna(Series) of the code '
+             '(intersect, isin, reindex with util.dtype_to_fill_value, assign) equals the specification and the internal filler never reaches a cell. Correspondence on every run: kernel level (util.binary_transition 1-D and per line of 2-D, util.slices_from_targets '
              'on every Boolean vector up to the tier bound) and API level (Series / Frame isna, notna, count, dropna both axes all/any, fillna by element and by '
              'labelled Series/Frame, leading/trailing/forward/backward fills on both axes) exhaustively over every missing pattern x every block layout x limit x '
              'direction of the small shapes listed in RULE, plus a seeded random stream of larger mixed-dtype frames and a malformed-input stream.'),
     'note': ('trusted: Coq kernel; the hand-written models SF/Missing.v, SF/MissingCheck.v (tied to /repo only by the correspondence cases of the run -- 0 impl!=M required); '
              'the harness; NumPy (isnan / isnat / astype / slice assignment are not modelled: cells are compared as Python values, a missing marker may change kind, '
              'an int copied into a float block is compared by value). Vectorised NumPy row operations are modelled per row; the whole-block fast path of the axis-1 fills '
-             '(no missing cell in ANY row) is modelled by a per-block flag computed from all rows. Partial: dropna, fillna(labelled container), count, notna have '
-             'specification-level checks (impl vs S on every case) and theorems about S, but no separate implementation model; dtype of the result is not compared; '
-             'datetime64 units other than D, 0-row / 0-column frames, tuple cells, negative limits and hierarchical labels are outside the checked domain. '
-             'Known finding (1): datetime64[ns] cells turned into ints by fills that coerce to object. Repaired and kept as regression inputs: backward axis-1 fill with limit across a 2-D block (690a4f3), Frame.dropna(axis=1) on a single 1-D block (35bd018).'),
+             '(no missing cell in ANY row) is modelled by a per-block flag computed from all rows. Partial: Frame.fillna(Frame), Frame.dropna above the keep mask, count, notna have '
+             'specification-level checks (impl vs S on every case) and theorems about S, but no separate implementation model; dtype of the result is not compared '
+             '(C03 records that axis-1 fills give layout-dependent dtypes). Reached since the extension round: float16/float32/timedelta64[D] columns next to uint8 and bytes '
+             'columns, FrameGO / FrameHE / SeriesHE, depth-2 hierarchical index and columns, 0-row / 0-column frames and the empty Series, containers of every dtype kind of '
+             'util.dtype_to_fill_value. NOT covered: complex dtypes (no literal for complex values), datetime64/timedelta64 units other than D (mixed units change the unit of '
+             'present cells: C07), tuple cells, negative limits, IndexHierarchy deeper than 2, Frame.from_overlay (TypeBlocks.fillna_by_values: C11), NaN labels. '
+             'Known findings (4): datetime64[ns] cells turned into ints by fills that coerce to object; Series.fillna(Series) with a hierarchical index raises; every missing-value operation on a Frame without columns raises; fillna_leading/trailing(axis=0) on a 0-row Frame raises. Repaired and kept as regression inputs: backward axis-1 fill with limit across a 2-D block (690a4f3), Frame.dropna(axis=1) on a single 1-D block (35bd018).'),
     'technique': 'refinement proof M = S by induction over the block list (invariant: bridging state = carry of S); kernel proofs over run/group decomposition; differential correspondence',
 }
 PROPERTY_FILES = ['Properties/C14.v']
 REFUTED_FILES = []
 GENERATED_FILES = ['Gen/Gen_c14.v']
-MODEL_FILES = ['SF/Missing.v', 'SF/MissingSpecCheck.v', 'Gen/Gen_c14.v', 'SF/MissingCheck.v']
+MODEL_FILES = ['SF/Missing.v', 'SF/MissingSpecCheck.v', 'SF/MissingFill.v', 'Gen/Gen_c14.v', 'SF/MissingCheck.v']
 TRANSLATED = ['DTYPE_INEXACT_KINDS', 'DTYPE_NAT_KINDS']
 IMPORTS = 'Require Import SF.Prelude SF.Value SF.Dtype SF.Missing SF.MissingSpecCheck SF.MissingCheck.'
 # the specification side only: nothing here depends on Gen/Gen_c14.v, so S stays evaluable when generate() fails closed
@@ -50,6 +54,8 @@ RULE = ('kernel strata: util.binary_transition on EVERY Boolean vector of length
         '2 x 3 (thorough also 2 x 4, 3 x 3) every pattern x every layout x limits x directions x both axes + leading/trailing; mixed frames (float/object/datetime between int/bool/str '
         'columns) every pattern x every layout x all operations; 2 x 2 x label sub/supersets for fillna(Frame); 3 cells x label subsets for fillna(Series). '
         'Then a seeded sample of 1 x 5 (quick) and a seeded random stream of frames up to 4 x 8 with random kinds/layout/limit, and 8 malformed calls. '
+        'Extension strata: dtype kinds f/h/T/U/Y (Series every pattern <= 3, mixed frames every pattern x layout), FrameGO/FrameHE/SeriesHE, depth-2 hierarchical labels '
+        '(every pattern of 3 cells / 3x2 / 2x3), four empty frames x 21 calls + the empty Series, container dtype kinds bool/str/object/datetime/timedelta/uint. '
         'A case is non-trivial when the input has at least one missing cell; distinct = distinct (operation, input, layout, arguments).')
 ASSUMPTIONS = ['limit = 0 means "no limit" (library convention, documented in the fillna docstrings); limit >= 0',
                'NumPy elementwise semantics: isnan / isnat / != / astype(object) keep every present value (datetime64[D] only; ns is outside the model)',
@@ -153,13 +159,22 @@ def present_value(kind, i, j):
         return (i + j) % 2 == 0
     if kind == 'S':
         return f's{i}{j}'
+    if kind in 'fh':
+        return float(10 * (j + 1) + i) + 0.5      # exact in float32 / float16
+    if kind == 'T':
+        return np.timedelta64(10 * j + i + 1, 'D')
+    if kind == 'U':
+        return 20 * (j + 1) + i                   # uint8
+    if kind == 'Y':
+        return f'b{i}{j}'.encode('ascii')
     raise ValueError(kind)
 
 
-MISSING = {'F': np.nan, 'O': None, 'N': np.nan, 'D': np.datetime64('NaT', 'D')}
+MISSING = {'F': np.nan, 'O': None, 'N': np.nan, 'D': np.datetime64('NaT', 'D'), 'f': np.nan, 'h': np.nan, 'T': np.timedelta64('NaT', 'D')}
 DTYPES = {'F': np.dtype('float64'), 'O': np.dtype(object), 'N': np.dtype(object), 'D': np.dtype('datetime64[D]'),
-          'I': np.dtype('int64'), 'B': np.dtype(bool), 'S': np.dtype('<U4')}
-CAN_MISS = 'FOND'
+          'I': np.dtype('int64'), 'B': np.dtype(bool), 'S': np.dtype('<U4'),
+          'f': np.dtype('float32'), 'h': np.dtype('float16'), 'T': np.dtype('timedelta64[D]'), 'U': np.dtype('uint8'), 'Y': np.dtype('S3')}
+CAN_MISS = 'FONDfhT'
 
 
 def column(kind, j, miss_col):
@@ -172,8 +187,15 @@ def column(kind, j, miss_col):
     return a
 
 
+def _norm(v):
+    import datetime as _dt
+    if isinstance(v, _dt.timedelta) and v.seconds == 0 and v.microseconds == 0:
+        return np.timedelta64(v.days, 'D')     # timedelta64[D].astype(object) yields datetime.timedelta: the same value
+    return v
+
+
 def col_lit(a):
-    return lit.vlist(lit.array_vals(a))
+    return lit.vlist([_norm(v) for v in lit.array_vals(a)])
 
 
 def cols_lit(cols):
@@ -352,8 +374,19 @@ def series_ops(ctx, kind, miss, tag):
                        tags={'op': 'directional', 'fwd': fwd, 'axis': 0, **tag}, nontrivial=nt)
 
 
+OTHER_KINDS = {
+    'bool': lambda n: np.array([True] * n, dtype=bool),
+    'str': lambda n: np.array([f'w{i}' for i in range(n)], dtype='<U2'),
+    'obj': lambda n: np.array([f'o{i}' if i % 2 else 900 + i for i in range(n)], dtype=object),
+    'dt': lambda n: np.array([EPOCH + np.timedelta64(300 + i, 'D') for i in range(n)], dtype='datetime64[D]'),
+    'td': lambda n: np.array([np.timedelta64(40 + i, 'D') for i in range(n)], dtype='timedelta64[D]'),
+    'uint': lambda n: np.array([200 + i for i in range(n)], dtype=np.uint8),
+}
+
+
 def series_fill_container(ctx, kind, miss, other_labels, other_miss, tag):
     import static_frame as sf
+    from static_frame.core.util import dtype_to_fill_value
     n = len(miss)
     a = column(kind, 0, miss)
     labels = [f'k{i}' for i in range(n)]
@@ -361,6 +394,9 @@ def series_fill_container(ctx, kind, miss, other_labels, other_miss, tag):
     if other_miss == 'int':
         # a container that can never hold a missing marker: the reindex fill value used internally is then 0, and must not leak
         ov = np.array([700 + i for i in range(len(other_labels))], dtype=np.int64)
+    elif isinstance(other_miss, str) and other_miss in OTHER_KINDS:
+        # every branch of util.dtype_to_fill_value: the internal fill value (False, '', None, NaT, timedelta 0) must not leak either
+        ov = OTHER_KINDS[other_miss](len(other_labels))
     else:
         ov = np.empty(len(other_labels), dtype=DTYPES[kind])
         for i, (lab, ms) in enumerate(zip(other_labels, other_miss)):
@@ -371,6 +407,8 @@ def series_fill_container(ctx, kind, miss, other_labels, other_miss, tag):
     yield Case('api:series-fillna-container',
                {'series': [str(x) for x in a], 'index': labels, 'other': [str(x) for x in ov], 'other_index': list(other_labels),
                 'call': 's.fillna(other)', 'observed': [str(x) for x in out]},
+               m=(f'chk_fillna_labels_M {lit.val(dtype_to_fill_value(ov.dtype))} {lit.vlist(labels)} {col_lit(a)} {lit.vlist(list(other_labels))} '
+                  f'{col_lit(ov)} {col_lit(out)}'),
                s=f'chk_fillna_labels_S {lit.vlist(labels)} {col_lit(a)} {lit.vlist(list(other_labels))} {col_lit(ov)} {col_lit(out)}',
                tags={'op': 'fillna-container', **tag}, nontrivial=any(miss))
 
@@ -392,7 +430,7 @@ def series_cases(ctx):
         for miss in itertools.product((False, True), repeat=3):
             for r in range(0, len(pool) + 1):
                 for labs in itertools.combinations(pool, r):
-                    for om in ([False] * r, [i == 0 for i in range(r)], 'int'):
+                    for om in ([False] * r, [i == 0 for i in range(r)], 'int') + (tuple(OTHER_KINDS) if kind == 'F' else ()):
                         if r == 0 and om:
                             continue
                         if om == 'int' and kind == 'D':
@@ -401,17 +439,20 @@ def series_cases(ctx):
 
 
 # ---------------------------------------------------------------------------------------------- Frames
+_FRAME_CLS = [None]      # set by class_variant_cases: FrameGO / FrameHE instead of Frame
+
+
 def frame_of(kinds, mask, layout):
     nrows = len(mask[0]) if mask else 0
     cols = build(kinds, mask)
     index = [f'r{i}' for i in range(nrows)]
     columns = [f'c{j}' for j in range(len(kinds))]
-    return cols, zoo.frame_from_columns(cols, layout, index=index, columns=columns, name='f'), index, columns
+    return cols, zoo.frame_from_columns(cols, layout, index=index, columns=columns, name='f', cls=_FRAME_CLS[0]), index, columns
 
 
 def desc_of(kinds, mask, layout, call, observed):
     return {'kinds': ''.join(kinds), 'missing': [[int(b) for b in c] for c in mask], 'layout': zoo.layout_str(layout),
-            'call': call, 'observed': observed,
+            'call': call, 'observed': observed, 'class': (_FRAME_CLS[0].__name__ if _FRAME_CLS[0] else 'Frame'),
             'how': 'column j of kind F/O/N/D/I/B/S built by c14.column(kind, j, missing[j]); frame = zoo.frame_from_columns(cols, layout)'}
 
 
@@ -542,6 +583,8 @@ def frame_fill_container(ctx, kinds, mask, layout, oindex, ocolumns, omiss):
     for j, cl in enumerate(ocolumns):
         if omiss == 'int':
             a = np.array([1000 + 10 * j + i for i in range(len(oindex))], dtype=np.int64)
+        elif isinstance(omiss, str) and omiss in OTHER_KINDS:
+            a = OTHER_KINDS[omiss](len(oindex))
         else:
             a = np.empty(len(oindex), dtype=float)
             for i in range(len(oindex)):
@@ -636,6 +679,9 @@ def frame_cases(ctx):
                 if oi and oc:
                     yield from frame_fill_container(ctx, kinds, mask, layout, oi, oc, lambda i, j: (i + j) % 2 == 0)
                     yield from frame_fill_container(ctx, kinds, mask, layout, oi, oc, 'int')
+                    if layout == ((2, True),):
+                        for ok in ('bool', 'str', 'dt'):
+                            yield from frame_fill_container(ctx, kinds, mask, layout, oi, oc, ok)
     # (5) regression: the inputs on which the backward bridging count was wrong before /repo 690a4f3 (spec = the correct behaviour)
     for miss_row, limit in (((True, True, True, False, True, False), 2), ((True, True, False, True, True, False), 2),
                             ((True, True, True, False, True, True, False), 3)):
@@ -723,8 +769,227 @@ def dt64ns_cases(ctx):
                    s=chk, tags=dict(tags, op='frame-fill'), nontrivial=True)
 
 
+
+# ---------------------------------------------------------------------------------------------- extension round: routes the cases did not reach
+def dtype_kind_cases(ctx):
+    """float32 / float16 / timedelta64 columns (missing NaN / NaT) next to uint8 and bytes columns (never missing)."""
+    quick = ctx.tier == 'quick'
+    for kind in 'fhT':
+        for n in range(1, 4):
+            for miss in itertools.product((False, True), repeat=n):
+                yield from series_ops(ctx, kind, miss, {'container': 'Series', 'route': 'dtype-kind'})
+    for mix in (['UfT', 'YhF'] if quick else ['UfT', 'YhF', 'TUf', 'hYT', 'fFh']):
+        kinds = list(mix)
+        for layout in layouts(kinds):
+            for mask in masks(1 if quick else 2, kinds):
+                yield from frame_directional(ctx, kinds, mask, layout, (0, 1), axes=(0, 1))
+                yield from frame_sided(ctx, kinds, mask, layout)
+                yield from frame_simple(ctx, kinds, mask, layout)
+
+
+def class_variant_cases(ctx):
+    """FrameGO / FrameHE / SeriesHE: the same operations through the other container classes."""
+    import static_frame as sf
+    kinds = ['F', 'O']
+    for cls in (sf.FrameGO, sf.FrameHE):
+        _FRAME_CLS[0] = cls
+        try:
+            for layout in layouts(kinds):
+                for mask in masks(1 if ctx.tier == 'quick' else 2, kinds):
+                    for c in itertools.chain(frame_directional(ctx, kinds, mask, layout, (0, 1), axes=(0, 1)),
+                                             frame_sided(ctx, kinds, mask, layout), frame_simple(ctx, kinds, mask, layout)):
+                        c.tags['route'] = cls.__name__
+                        yield c
+        finally:
+            _FRAME_CLS[0] = None
+    for n in range(1, 4):
+        for miss in itertools.product((False, True), repeat=n):
+            a = column('F', 0, miss)
+            s = sf.SeriesHE(a, index=[f'k{i}' for i in range(n)])
+            inp = col_lit(a)
+            ctx.count('SeriesHE')
+            d = s.dropna()
+            yield Case('api:class-variants', {'class': 'SeriesHE', 'series': [str(x) for x in a], 'call': 's.dropna()', 'observed': d.values.tolist()},
+                       s=f'chk_dropna_S {lit.vlist(lit.labels(s.index))} {inp} {lit.vlist(lit.labels(d.index))} {col_lit(d.values)}',
+                       tags={'route': 'SeriesHE', 'op': 'dropna'}, nontrivial=any(miss))
+            for fwd in (True, False):
+                out = (s.fillna_forward if fwd else s.fillna_backward)(1).values
+                yield Case('api:class-variants', {'class': 'SeriesHE', 'series': [str(x) for x in a], 'call': f's.fillna_{"forward" if fwd else "backward"}(1)',
+                                                  'observed': [str(x) for x in out]},
+                           m=f'chk_dir1d_M {lit.b(fwd)} 1 {inp} {col_lit(out)}', s=f'chk_dir1d_S {lit.b(fwd)} 1 {inp} {col_lit(out)}',
+                           tags={'route': 'SeriesHE', 'op': 'directional'}, nontrivial=any(miss))
+            out = s.fillna(7.25).values
+            yield Case('api:class-variants', {'class': 'SeriesHE', 'series': [str(x) for x in a], 'call': 's.fillna(7.25)', 'observed': [str(x) for x in out]},
+                       s=f'chk_fillna_S {lit.val(7.25)} {inp} {col_lit(out)}', tags={'route': 'SeriesHE', 'op': 'fillna'}, nontrivial=any(miss))
+
+
+FINDING_IH = 'C14-series-fillna-hierarchical'
+FINDING_NOCOL = 'C14-zero-column-frame'
+FINDING_SIDED0 = 'C14-sided-axis0-zero-rows'
+
+
+def hier_cases(ctx):
+    """hierarchical (depth-2) labels: the label side of dropna / count / label-aligned fill."""
+    import static_frame as sf
+    tuples = [('a', 1), ('a', 2), ('b', 1)]
+    ih = sf.IndexHierarchy.from_labels(tuples)
+    for miss in itertools.product((False, True), repeat=3):
+        a = column('F', 0, miss)
+        s = sf.Series(a, index=ih)
+        inp = col_lit(a)
+        base = {'series': [str(x) for x in a], 'index': [list(t) for t in tuples]}
+        ctx.count('hier:series')
+        d = s.dropna()
+        dl = lit.labels(d.index) if len(d) else []
+        yield Case('api:hierarchical', dict(base, call='s.dropna()', observed=[[list(t) for t in dl], d.values.tolist()]),
+                   s=f'chk_dropna_S {lit.vlist(tuples)} {inp} {lit.vlist(dl)} {col_lit(d.values)}',
+                   tags={'route': 'hier', 'op': 'dropna'}, nontrivial=any(miss))
+        out = s.fillna_forward(1).values
+        yield Case('api:hierarchical', dict(base, call='s.fillna_forward(1)', observed=[str(x) for x in out]),
+                   m=f'chk_dir1d_M true 1 {inp} {col_lit(out)}', s=f'chk_dir1d_S true 1 {inp} {col_lit(out)}',
+                   tags={'route': 'hier', 'op': 'directional'}, nontrivial=any(miss))
+        # label-aligned fill from a Series with hierarchical labels (sub/superset, another order)
+        for olabs in ([('a', 2)], [('b', 1), ('a', 1)], [('z', 9), ('a', 2), ('a', 1)]):
+            ov = np.array([500.0 + i for i in range(len(olabs))])
+            other = sf.Series(ov, index=sf.IndexHierarchy.from_labels(olabs) if len(olabs) > 1 else sf.IndexHierarchy.from_labels(olabs))
+            call = 's.fillna(other)'
+            tags = {'route': 'hier', 'op': 'fillna-container', 'finding': FINDING_IH}   # class by construction: receiver with a hierarchical index
+            desc = dict(base, call=call, other=[float(x) for x in ov], other_index=[list(t) for t in olabs])
+            try:
+                out = s.fillna(other).values
+            except Exception as e:  # noqa
+                yield Case('api:hierarchical', dict(desc, observed=lit.err_class(e)),
+                           py_fail=f'{call} raised {type(e).__name__}: a label-aligned fill must fill the covered missing cells', tags=tags, nontrivial=any(miss))
+                continue
+            yield Case('api:hierarchical', dict(desc, observed=[str(x) for x in out]),
+                       s=f'chk_fillna_labels_S {lit.vlist(tuples)} {inp} {lit.vlist(olabs)} {col_lit(ov)} {col_lit(out)}', tags=tags, nontrivial=any(miss))
+    # frames: hierarchical index (dropna axis 0, fillna(Frame)) and hierarchical columns (dropna axis 1, count)
+    kinds = ['F', 'F']
+    for mask in masks(3, kinds):
+        cols = build(kinds, mask)
+        inp = cols_lit(cols)
+        columns = ['p', 'q']
+        f = sf.Frame.from_items(zip(columns, cols), index=ih)
+        ctx.count('hier:frame')
+        for use_any in (False, True):
+            d = f.dropna(axis=0, condition=np.any if use_any else np.all)
+            dcols = frame_cols(d)
+            lines_lit = lit.lst([lit.vlist([c[i] for c in dcols]) for i in range(d.shape[0])])
+            dl = lit.labels(d.index) if d.shape[0] else []
+            yield Case('api:hierarchical', {'columns': obs_cols(cols), 'index': [list(t) for t in tuples], 'call': f'f.dropna(axis=0, any={use_any})',
+                                            'observed': [list(t) for t in dl]},
+                       s=(f'chk_dropna_frame_S false {lit.b(use_any)} {nat(3)} {lit.vlist(tuples)} {lit.vlist(columns)} {inp} {lit.vlist(dl)} {lines_lit}'),
+                       tags={'route': 'hier', 'op': 'dropna', 'axis': 0}, nontrivial=any_missing(mask))
+        other = sf.Frame.from_records([[7.0, 8.0], [9.0, 10.0]], index=sf.IndexHierarchy.from_labels([('a', 2), ('z', 9)]), columns=('q', 'p'))
+        out = frame_cols(f.fillna(other))
+        yield Case('api:hierarchical', {'columns': obs_cols(cols), 'index': [list(t) for t in tuples], 'call': 'f.fillna(other)', 'observed': obs_cols(out)},
+                   s=(f'chk_fillna_frame_labels_S {lit.vlist(tuples)} {lit.vlist(columns)} {inp} {lit.vlist([("a", 2), ("z", 9)])} {lit.vlist(["q", "p"])} '
+                      f'{cols_lit([np.array([7.0, 9.0]), np.array([8.0, 10.0])])} {cols_lit(out)}'),
+                   tags={'route': 'hier', 'op': 'fillna-container'}, nontrivial=any_missing(mask))
+    kinds = ['F', 'F', 'F']
+    for mask in masks(2, kinds):
+        cols = build(kinds, mask)
+        inp = cols_lit(cols)
+        f = sf.Frame.from_items(zip(tuples, cols), index=('x', 'y'), columns_constructor=sf.IndexHierarchy.from_labels)
+        ctx.count('hier:frame')
+        for use_any in (False, True):
+            d = f.dropna(axis=1, condition=np.any if use_any else np.all)
+            dl = lit.labels(d.columns) if d.shape[1] else []
+            yield Case('api:hierarchical', {'columns': obs_cols(cols), 'column_labels': [list(t) for t in tuples], 'call': f'f.dropna(axis=1, any={use_any})',
+                                            'observed': [list(t) for t in dl]},
+                       s=(f'chk_dropna_frame_S true {lit.b(use_any)} {nat(2)} {lit.vlist(["x", "y"])} {lit.vlist(tuples)} {inp} {lit.vlist(dl)} {cols_lit(frame_cols(d))}'),
+                       tags={'route': 'hier', 'op': 'dropna', 'axis': 1}, nontrivial=any_missing(mask))
+        c = f.count(axis=0)
+        yield Case('api:hierarchical', {'columns': obs_cols(cols), 'call': 'f.count(axis=0)', 'observed': c.values.tolist()},
+                   s=f'chk_count_frame_S false {nat(2)} {inp} {zlist(c.values)}',
+                   py_fail=None if lit.labels(c.index) == tuples else f'count(axis=0) is labelled {lit.labels(c.index)}',
+                   tags={'route': 'hier', 'op': 'count'}, nontrivial=any_missing(mask))
+
+
+def empty_cases(ctx):
+    """0-row and 0-column frames and the empty Series: every operation must return the (same) empty container."""
+    import static_frame as sf
+    frames = [
+        ('0x2 one 2-D block', lambda: sf.Frame(columns=('a', 'b')), 0, ['a', 'b'], []),
+        ('0x2 two 1-D blocks', lambda: sf.Frame.from_dict({'a': np.array([], dtype=float), 'b': np.array([], dtype=object)}), 0, ['a', 'b'], []),
+        ('2x0', lambda: sf.Frame(index=('x', 'y')), 2, [], ['x', 'y']),
+        ('0x0', lambda: sf.Frame(), 0, [], []),
+    ]
+    for name, mk, nrows, columns, index in frames:
+        f = mk()
+        ncols = len(columns)
+        inp = lit.lst(['[]'] * ncols)          # columns without cells
+        ops = []
+        e2 = lambda fr: lit.lst([blist(c) for c in frame_cols(fr)])
+        ops.append(('isna', 'f.isna()', lambda: f.isna(), lambda r: f'chk_isna_frame_S {inp} {e2(r)}'))
+        ops.append(('notna', 'f.notna()', lambda: f.notna(), lambda r: f'chk_notna_frame_S {inp} {e2(r)}'))
+        ops.append(('fillna', 'f.fillna(0)', lambda: f.fillna(0), lambda r: f'chk_fillna_frame_S (VInt 0) {inp} {cols_lit(frame_cols(r))}'))
+        for axis in (0, 1):
+            ops.append(('count', f'f.count(axis={axis})', (lambda axis=axis: f.count(axis=axis)),
+                        (lambda r, axis=axis: f'chk_count_frame_S {lit.b(axis == 1)} {nat(nrows)} {inp} {zlist(r.values)}')))
+            for use_any in (False, True):
+                def chk_drop(r, axis=axis, use_any=use_any):
+                    dcols = frame_cols(r)
+                    lines = cols_lit(dcols) if axis == 1 else lit.lst([lit.vlist([c[i] for c in dcols]) for i in range(r.shape[0])])
+                    return (f'chk_dropna_frame_S {lit.b(axis == 1)} {lit.b(use_any)} {nat(nrows)} {lit.vlist(index)} {lit.vlist(columns)} {inp} '
+                            f'{lit.vlist(lit.labels(r.columns if axis == 1 else r.index) if (r.shape[1] if axis == 1 else r.shape[0]) else [])} {lines}')
+                ops.append(('dropna', f'f.dropna(axis={axis}, condition=np.{"any" if use_any else "all"})',
+                            (lambda axis=axis, use_any=use_any: f.dropna(axis=axis, condition=np.any if use_any else np.all)), chk_drop))
+            for fwd in (True, False):
+                ops.append(('directional', f'f.fillna_{"forward" if fwd else "backward"}(1, axis={axis})',
+                            (lambda axis=axis, fwd=fwd: (f.fillna_forward if fwd else f.fillna_backward)(1, axis=axis)),
+                            (lambda r, axis=axis, fwd=fwd: (f'chk_dir_axis1_S {lit.b(fwd)} 1 {nat(nrows)} {inp} {cols_lit(frame_cols(r))}' if axis == 1
+                                                            else f'chk_dir_axis0_S {lit.b(fwd)} 1 {inp} {cols_lit(frame_cols(r))}'))))
+            for leading in (True, False):
+                ops.append((f'sided{axis}', f'f.fillna_{"leading" if leading else "trailing"}(0, axis={axis})',
+                            (lambda axis=axis, leading=leading: (f.fillna_leading if leading else f.fillna_trailing)(0, axis=axis)),
+                            (lambda r, axis=axis, leading=leading: (f'chk_sided_axis1_S {lit.b(leading)} (VInt 0) {nat(nrows)} {inp} {cols_lit(frame_cols(r))}' if axis == 1
+                                                                    else f'chk_sided_axis0_S {lit.b(leading)} (VInt 0) {inp} {cols_lit(frame_cols(r))}'))))
+        for op, call, run, chk in ops:
+            tags = {'route': 'empty', 'op': op, 'shape': name.split()[0]}
+            # input classes of the two findings, by construction of the input
+            if ncols == 0 and op != 'count':
+                tags['finding'] = FINDING_NOCOL
+            elif nrows == 0 and op == 'sided0':
+                tags['finding'] = FINDING_SIDED0
+            ctx.count('empty-frame')
+            try:
+                r = run()
+            except Exception as e:  # noqa
+                yield Case('api:empty', {'frame': name, 'call': call, 'observed': lit.err_class(e)},
+                           py_fail=f'{call} on an empty frame ({name}) raised {type(e).__name__}: it must return the empty frame', tags=tags, nontrivial=False)
+                continue
+            py_fail = None
+            want_shape = (nrows, ncols)
+            if op in ('isna', 'notna', 'fillna', 'directional', 'sided0', 'sided1') and tuple(r.shape) != want_shape:
+                py_fail = f'{call} changed the shape {want_shape} -> {tuple(r.shape)}'
+            yield Case('api:empty', {'frame': name, 'call': call, 'observed': {'shape': list(r.shape)}}, s=chk(r), py_fail=py_fail, tags=tags, nontrivial=False)
+    s0 = sf.Series((), dtype=float)
+    for call, run, chk in (('s.isna()', lambda: s0.isna().values, lambda r: f'chk_isna_S [] {blist(r)}'),
+                           ('s.count()', lambda: s0.count(), lambda r: f'chk_count_S [] {lit.z(int(r))}'),
+                           ('s.dropna()', lambda: s0.dropna().values, lambda r: f'chk_dropna_S [] [] [] {col_lit(r)}'),
+                           ('s.fillna(0)', lambda: s0.fillna(0).values, lambda r: f'chk_fillna_S (VInt 0) [] {col_lit(r)}'),
+                           ('s.fillna_forward(1)', lambda: s0.fillna_forward(1).values, lambda r: f'chk_dir1d_S true 1 [] {col_lit(r)}'),
+                           ('s.fillna_backward(1)', lambda: s0.fillna_backward(1).values, lambda r: f'chk_dir1d_S false 1 [] {col_lit(r)}'),
+                           ('s.fillna_leading(0)', lambda: s0.fillna_leading(0).values, lambda r: f'chk_sided1d_S true (VInt 0) [] {col_lit(r)}'),
+                           ('s.fillna_trailing(0)', lambda: s0.fillna_trailing(0).values, lambda r: f'chk_sided1d_S false (VInt 0) [] {col_lit(r)}'),
+                           ('s.fillna(other)', lambda: s0.fillna(sf.Series([1.0], index=('a',))).values, lambda r: f'chk_fillna_labels_S [] [] [VStr "a"] [VFlt 1 1] {col_lit(r)}')):
+        ctx.count('empty-series')
+        try:
+            r = run()
+        except Exception as e:  # noqa
+            yield Case('api:empty', {'series': 'empty float64', 'call': call, 'observed': lit.err_class(e)},
+                       py_fail=f'{call} on an empty Series raised {type(e).__name__}', tags={'route': 'empty', 'op': call}, nontrivial=False)
+            continue
+        yield Case('api:empty', {'series': 'empty float64', 'call': call, 'observed': 'ok'}, s=chk(r), tags={'route': 'empty', 'op': call}, nontrivial=False)
+
+
 def cases(ctx):
     yield from kernel_cases(ctx)
+    yield from dtype_kind_cases(ctx)
+    yield from class_variant_cases(ctx)
+    yield from hier_cases(ctx)
+    yield from empty_cases(ctx)
     yield from dt64ns_cases(ctx)
     yield from series_cases(ctx)
     yield from frame_cases(ctx)
